@@ -381,4 +381,78 @@ theorem coefTensor_rel (dims : List (Dim F)) (coef : Int → F) :
   | nil => exact key _
   | cons d ds => exact key _
 
+/-! ## the chain of slice multiplications -/
+section grid
+attribute [local instance] Arith.ofField
+
+theorem gridLoop_rel (hε : 0 ≤ ε) (hfl : ∀ a, RelErr ε 1 a (fl a)) (dims : List (Dim F)) (coef : Int → F)
+    (coords : List (List F)) (hlen : coords.length = dims.length)
+    (hna : ∀ d ∈ dims, d.naxes = d.nknots - d.order - 1) (hmono : ∀ d ∈ dims, d.KnotsMono) :
+    ∀ (m k : Nat) (ndE ndR ndM : NdSparse F) (kk : Nat), k + m = dims.length →
+      GridInv dims coef coords k ndE → TRel ε kk ndE ndR ndM →
+      ∃ rE rR rM, gridLoop (dims.drop k) (coords.drop k) k ndE = some rE ∧
+        gridLoop (A := Arith.rounded fl st) (dims.drop k) (coords.drop k) k ndR = some rR ∧
+        gridLoop (dims.drop k) (coords.drop k) k ndM = some rM ∧
+        TRel ε (kk + gridRoundCount (dims.drop k)) rE rR rM := by
+  intro m
+  induction m with
+  | zero =>
+    intro k ndE ndR ndM kk hk _ h
+    have : k = dims.length := by omega
+    subst this
+    have e1 : List.drop dims.length dims = [] := List.drop_length
+    have e2 : List.drop dims.length coords = [] := List.drop_eq_nil_of_le (by omega)
+    rw [e1, e2]
+    exact ⟨ndE, ndR, ndM, rfl, rfl, rfl, by simpa [gridRoundCount] using h⟩
+  | succ m ih =>
+    intro k ndE ndR ndM kk hk hinv h
+    have hkd : k < dims.length := by omega
+    have hkc : k < coords.length := by omega
+    have e1 : dims[k] = dimAt dims k := by simp [dimAt, List.getD_eq_getElem?_getD, hkd]
+    have e2 : coords[k] = coords.getD k [] := by simp [List.getD_eq_getElem?_getD, hkc]
+    rw [List.drop_eq_getElem_cons hkd, List.drop_eq_getElem_cons hkc, e1, e2]
+    have hnak : (dimAt dims k).naxes = (dimAt dims k).nknots - (dimAt dims k).order - 1 := by
+      rw [← e1]; exact hna _ (List.getElem_mem hkd)
+    have hmk : (dimAt dims k).KnotsMono := by rw [← e1]; exact hmono _ (List.getElem_mem hkd)
+    obtain ⟨ndE', h1, h2⟩ := gridInv_step dims coef coords k ndE hkd hnak hinv
+    have hrk : ndE.ranges.getD k 0 = (dimAt dims k).naxes := by
+      rw [hinv.ranges, getD_map_range _ _ _ hkd]; simp
+    have hlenr : ndE.ranges.length = dims.length := by rw [hinv.ranges]; simp
+    obtain ⟨cE, cR, cM, s1, s2, s3, s4⟩ := sliceMultiply_rel (st := st) hε hfl h
+      (bsplineBasis (dimAt dims k).knots (dimAt dims k).nknots (dimAt dims k).order (coords.getD k [])).transpose
+      (bsplineBasis (A := Arith.rounded fl st) (dimAt dims k).knots (dimAt dims k).nknots (dimAt dims k).order
+        (coords.getD k [])).transpose k rfl rfl
+      (fun j g hj hg => basisT_rel hε hfl _ _ _ _ hmk j g hj hg) hinv.wf (by rw [hlenr]; exact hkd)
+      (by rw [hrk, hnak]; rfl)
+    have hc : cE = ndE' := Option.some.inj (s1.symm.trans h1)
+    subst hc
+    obtain ⟨rE, rR, rM, g1, g2, g3, g4⟩ := ih (k + 1) cE cR cM _ (by omega) h2 s4
+    refine ⟨rE, rR, rM, ?_, ?_, ?_, ?_⟩
+    · simp only [gridLoop, s1]; exact g1
+    · simp only [gridLoop, s2]; exact g2
+    · simp only [gridLoop, s3]; exact g3
+    · have e : kk + 5 * (dimAt dims k).order + 1 + gridRoundCount (List.drop (k + 1) dims)
+          = kk + gridRoundCount (dimAt dims k :: List.drop (k + 1) dims) := by
+        simp only [gridRoundCount]; omega
+      rw [← e]; exact g4
+
+/-- `grideval` under rounding: the three runs succeed together and every entry of the result carries
+`gridRoundCount dims = Σ_d (5·order_d + 1)` roundings -/
+theorem gridEval_rel (hε : 0 ≤ ε) (hfl : ∀ a, RelErr ε 1 a (fl a)) (dims : List (Dim F)) (coef : Int → F)
+    (coords : List (List F)) (hwf : GridTableWF dims) (hmono : ∀ d ∈ dims, d.KnotsMono)
+    (hlen : coords.length = dims.length) :
+    ∃ rE rR rM, gridEval dims coef coords = some rE ∧
+      gridEval (A := Arith.rounded fl st) dims coef coords = some rR ∧
+      gridEval dims (fun i => |coef i|) coords = some rM ∧ TRel ε (gridRoundCount dims) rE rR rM := by
+  obtain ⟨rE, rR, rM, g1, g2, g3, g4⟩ := gridLoop_rel (st := st) hε hfl dims coef coords hlen hwf.naxes_eq hmono
+    dims.length 0 _ _ _ 0 (by omega) (gridInv_init dims coef coords hwf.strides hwf.ne)
+    (coefTensor_rel (ε := ε) (fl := fl) (st := st) dims coef)
+  rw [List.drop_zero, List.drop_zero] at g1 g2 g3
+  refine ⟨rE, rR, rM, ?_, ?_, ?_, by simpa using g4⟩
+  · unfold gridEval; rw [if_neg (fun hh => hh hlen)]; exact g1
+  · unfold gridEval; rw [if_neg (fun hh => hh hlen)]; exact g2
+  · unfold gridEval; rw [if_neg (fun hh => hh hlen)]; exact g3
+
+end grid
+
 end PsV
